@@ -77,8 +77,8 @@ PROPS["C09"] = dict(
           "Non-trivial = history with a successful remove after >=2 successful appends, or a PEM append stored as DER, or two list types, or a multi-list start state, or an AppendList/AppendDatabase; "
           "distinct by SHA-256 of (start, ops)."),
     assumptions=["ref/esl reference codec", "operation rules of props/c09 state exactly the C09 statement"],
-    quick=dict(checks=20000, shards=4, timeout=600),
-    thorough=dict(checks=100000, shards=16, timeout=3000),
+    quick=dict(checks=8000, shards=4, timeout=600),
+    thorough=dict(checks=60000, shards=16, timeout=3000),
 )
 
 PROPS["C10"] = dict(
